@@ -58,6 +58,7 @@ func vDeadlocked() bool                  { return false }
 func vNondetErr(name string) error       { return nil }
 func vHavocBytes(b []byte, name string)  {}
 func vBencode(v interface{}) []byte      { return nil }
+func vLastEncoded() interface{}          { return nil }
 func vAnd(a, b bool) bool                { return a && b }
 func vOr(a, b bool) bool                 { return a || b }
 func vImp(a, b bool) bool                { return !a || b }
